@@ -17,6 +17,20 @@ def sh(cmd, **kw):
     return subprocess.run(cmd, shell=True, capture_output=True, text=True, **kw)
 
 
+_VCOPY = None
+
+
+def verif_copy():
+    """the checks are run from a private copy of /verif so that a seeded run never touches the real evidence files,
+    the regenerated constants or the driver binary of /verif"""
+    global _VCOPY
+    if _VCOPY is None:
+        _VCOPY = os.path.join(SCRATCH, "verif")
+        os.makedirs(SCRATCH, exist_ok=True)
+        sh(f"rsync -a --delete --exclude .git --exclude replays {VERIF}/ {_VCOPY}/")
+    return _VCOPY
+
+
 def run_one(sid, tier="quick"):
     d = os.path.join(SEEDED, sid)
     meta = json.load(open(os.path.join(d, "meta.json")))
@@ -45,13 +59,14 @@ def run_one(sid, tier="quick"):
     for p in props:
         t0 = time.time()
         env = dict(os.environ, SERIF_REPO=work)
-        r = subprocess.run([os.path.join(VERIF, "check"), p, "--tier", tier], capture_output=True, text=True, env=env, cwd=VERIF)
+        vcopy = verif_copy()
+        r = subprocess.run([os.path.join(vcopy, "check"), p, "--tier", tier], capture_output=True, text=True, env=env, cwd=vcopy)
         viol = [l for l in r.stdout.splitlines() if l.startswith("VIOLATION")]
         replay = None
         if viol:
             path = viol[0].split("replay=")[1].split()[0]
             try:
-                j = json.load(open(os.path.join(VERIF, path)))
+                j = json.load(open(os.path.join(vcopy, path)))
                 replay = {"kind": j.get("kind"), "why": (j.get("verdict") or {}).get("why", "")[:300], "spec": json.dumps(j.get("spec"))[:300]}
             except Exception:
                 pass
